@@ -59,6 +59,8 @@ pub struct SettingsS {
     pub disable_version_flag: bool, pub disable_help_subcommand: bool, pub no_binary_name: bool, pub has_version: bool,
     /// command-level `allow_hyphen_values` / `allow_negative_numbers` (for the value-taking args of this level only)
     pub allow_hyphen_values: bool, pub allow_negative_numbers: bool,
+    /// command-level `trailing_var_arg` (for the positional with the highest index)
+    pub trailing_var_arg: bool,
 }
 
 #[derive(Clone, Debug, Default)]
@@ -199,7 +201,7 @@ impl CmdS {
             ("infer_subcommands", s.infer_subcommands), ("allow_external_subcommands", s.allow_external_subcommands), ("ignore_errors", s.ignore_errors), ("args_override_self", s.args_override_self),
             ("dont_delimit_trailing_values", s.dont_delimit_trailing_values), ("allow_missing_positional", s.allow_missing_positional), ("subcommand_required", s.subcommand_required),
             ("arg_required_else_help", s.arg_required_else_help), ("subcommand_negates_reqs", s.subcommand_negates_reqs), ("disable_help_flag", s.disable_help_flag),
-            ("disable_version_flag", s.disable_version_flag), ("disable_help_subcommand", s.disable_help_subcommand), ("no_binary_name", s.no_binary_name), ("version", s.has_version), ("allow_hyphen_values", s.allow_hyphen_values), ("allow_negative_numbers", s.allow_negative_numbers)] { if b { out.push_str(&format!(" {n}")); } }
+            ("disable_version_flag", s.disable_version_flag), ("disable_help_subcommand", s.disable_help_subcommand), ("no_binary_name", s.no_binary_name), ("version", s.has_version), ("allow_hyphen_values", s.allow_hyphen_values), ("allow_negative_numbers", s.allow_negative_numbers), ("trailing_var_arg", s.trailing_var_arg)] { if b { out.push_str(&format!(" {n}")); } }
         for a in &self.args { out.push_str(&format!("\n{pad}  arg {}", a.summary())); }
         for g in &self.groups { out.push_str(&format!("\n{pad}  group {:?}", g)); }
         for c in &self.subs { out.push('\n'); out.push_str(&c.summary(indent + 2)); }
@@ -213,7 +215,7 @@ impl CmdS {
         t.push(bits(&[s.args_conflicts_with_subcommands, s.subcommand_precedence_over_arg, s.infer_long_args, s.infer_subcommands, s.allow_external_subcommands,
             s.ignore_errors, s.args_override_self, s.dont_delimit_trailing_values, s.allow_missing_positional, s.subcommand_required, s.arg_required_else_help,
             s.subcommand_negates_reqs, s.disable_help_flag, s.disable_version_flag, s.disable_help_subcommand, s.no_binary_name, s.has_version,
-            s.allow_hyphen_values, s.allow_negative_numbers]));
+            s.allow_hyphen_values, s.allow_negative_numbers, s.trailing_var_arg]));
         t.push(self.args.len().to_string());
         for a in &self.args { t.push(a.encode()); }
         t.push(self.groups.len().to_string());
@@ -240,7 +242,7 @@ impl CmdS {
             .disable_help_subcommand(s.disable_help_subcommand).no_binary_name(s.no_binary_name);
         if s.has_version { c = c.version("1.0"); }
         #[allow(deprecated)]
-        { if s.allow_hyphen_values { c = c.allow_hyphen_values(true); } if s.allow_negative_numbers { c = c.allow_negative_numbers(true); } }
+        { if s.allow_hyphen_values { c = c.allow_hyphen_values(true); } if s.allow_negative_numbers { c = c.allow_negative_numbers(true); } if s.trailing_var_arg { c = c.trailing_var_arg(true); } }
         for a in &self.args { c = c.arg(a.build(env_names)); }
         for g in &self.groups {
             let mut ag = ArgGroup::new(g.id.clone()).args(g.args.clone()).required(g.required).multiple(g.multiple);
@@ -468,7 +470,7 @@ pub fn gen_cmd_in(rng: &mut Rng, cfg: &GenCfg, depth: usize, name: &str, inherit
         s.disable_version_flag = rng.chance(1, 8);
         s.ignore_errors = rng.chance(1, 10);
         s.arg_required_else_help = rng.chance(1, 12);
-        if cfg.exotic { s.allow_missing_positional = rng.chance(1, 6); s.allow_hyphen_values = rng.chance(1, 10); s.allow_negative_numbers = rng.chance(1, 10); }
+        if cfg.exotic { s.allow_missing_positional = rng.chance(1, 6); s.allow_hyphen_values = rng.chance(1, 10); s.allow_negative_numbers = rng.chance(1, 10); s.trailing_var_arg = rng.chance(1, 10); }
     }
     if cfg.subs && depth < 2 && rng.chance(if depth == 0 { 2 } else { 1 }, 3) {
         let n = 1 + rng.below(2);
